@@ -3,6 +3,12 @@
      sw    : the OpenSSL fallback is NOT modelled: block encryption is FIPS-197 (AesSpec), the
              stream is the portable loop of crypto_aesctr.c
      wipe-aesni / wipe-sw : release events of the free paths (C20)
+     sel-<c><t> : the AES-NI build as a whole under the selection model (Crypto/AesSelect.v, data
+             regenerated from crypto_aes.c / crypto_aesctr.c): c = 1 the CPU reports AES-NI, t = 1 the
+             first-use self-test passes.  Key objects are AES-NI or OpenSSL objects as crypto_aes.c
+             decides; each stream call goes where crypto_aesctr.c sends it; a callee applied to
+             the other kind of object is "model-fault".  OpenSSL = FIPS-197 (table S-box).
+             Extra line:  sel  -> sel can_use=<n> key=<0|1> block=<0|1> stream16=<0|1> stream15=<0|1>
    case lines (same as harness/drv_aes.c):
      block <key> <blk>...     -> ok <ct>...           through crypto_aes_key_expand/encrypt_block
      blockni <key> <blk>...   -> ok <ct>...           the _aesni functions called directly
@@ -18,6 +24,9 @@
 let mode = if Array.length Sys.argv > 1 then Sys.argv.(1) else "aesni"
 let hw = (mode = "aesni" || mode = "wipe-aesni")
 let wipe = (mode = "wipe-aesni" || mode = "wipe-sw")
+let selmode = String.length mode = 6 && String.sub mode 0 4 = "sel-"
+let sel_cpu = selmode && mode.[4] = '1'
+let sel_test = selmode && mode.[5] = '1'
 
 let unres = function Ok a -> a | Fault -> failwith "fault" | AssertFail -> failwith "assert" | OutOfFuel -> failwith "fuel"
 
@@ -39,14 +48,15 @@ let split_sizes sizes l =
   go sizes l []
 let _ = split_at
 
-(* ---- the model: state machine step by step *)
-let run_model toks =
+(* ---- the model: state machine step by step; expand : key bytes -> key object,
+   strm : key object -> state -> data -> (state, output) *)
+let run_model_gen expand strm toks =
   let cur = ref None and stream = ref None in
   let outs = ref [] in
   List.iter (fun t ->
     let arg = tail t in
     match t.[0] with
-    | 'K' -> cur := Some (model_e (bytes_of_hex arg))
+    | 'K' -> cur := Some (expand (bytes_of_hex arg))
     | 'A' -> stream := Some (None, junk_state ())
     | 'I' -> (match !cur with Some e -> stream := Some (Some e, x_init2 (nonce_of arg) (junk_state ())) | None -> failwith "nokey")
     | 'N' -> (match !cur, !stream with Some e, Some (_, s) -> stream := Some (Some e, x_init2 (nonce_of arg) s) | _ -> failwith "nostream")
@@ -55,16 +65,31 @@ let run_model toks =
     | 'J' -> (match !stream with Some (e, s) -> stream := Some (e, x_seek (n_of_hex arg) s) | None -> failwith "nostream")
     | 's' | 'S' -> (match !stream with
         | Some (Some e, s) ->
-          let (s', o) = unres (x_stream_cfg e hw s (bytes_of_hex arg)) in
+          let (s', o) = strm e s (bytes_of_hex arg) in
           stream := Some (Some e, s'); outs := o :: !outs
         | _ -> failwith "nostream")
     | 'B' -> (match !cur, String.index_opt arg ':' with
         | Some e, Some i ->
           let nonce = nonce_of (String.sub arg 0 i) and data = bytes_of_hex (String.sub arg (i + 1) (String.length arg - i - 1)) in
-          outs := unres (x_aesctr_buf e hw (junk_state ()) nonce data) :: !outs
+          (* crypto_aesctr_buf: init2 on an uninitialised stack object, one stream call *)
+          outs := snd (strm e (x_init2 nonce (junk_state ())) data) :: !outs
         | _ -> failwith "B")
     | _ -> failwith "tok") toks;
   List.rev !outs
+
+let run_model toks = run_model_gen model_e (fun e s d -> unres (x_stream_cfg e hw s d)) toks
+
+(* ---- the library under the selection model (mode sel-<c><t>) *)
+let ossl key = spec_e key
+let sel_expand key = unres (x_lib_key_expand sel_cpu sel_test key)
+let sel_block ko = unres (x_lib_block sel_cpu sel_test ossl ko)
+let run_sel toks = run_model_gen sel_expand (fun ko s d -> unres (x_lib_stream sel_cpu sel_test ossl ko s d)) toks
+let show_selection () =
+  let b x = if x then 1 else 0 in
+  match x_selection sel_cpu sel_test with
+  | Ok ((((n, k), bl), s16), s15) ->
+    Printf.sprintf "sel can_use=%s key=%d block=%d stream16=%d stream15=%d" (hex_of_n n) (b k) (b bl) (b s16) (b s15)
+  | Fault -> "sel model-fault" | AssertFail -> "sel model-assert" | OutOfFuel -> "sel model-fuel"
 
 (* ---- the spec: per (key, nonce) epoch, ctr_spec of the concatenation, cut back into the calls *)
 let run_spec toks =
@@ -147,6 +172,10 @@ let () = iter_lines (fun line ->
       match split_ws line with
       | ("block" | "blockni") :: key :: blks when wipe -> "ok" ^ String.concat "" (key_free (bytes_of_hex key))
       | "ctr" :: toks when wipe -> "ok" ^ String.concat "" (run_wipe_ctr toks)
+      | ["sel"] when selmode -> show_selection ()
+      | ("block" | "blockni") :: key :: blks when selmode ->
+        let e = sel_block (sel_expand (bytes_of_hex key)) in show (List.map (fun b -> e (bytes_of_hex b)) blks)
+      | "ctr" :: toks when selmode -> show (run_sel toks)
       | "block" :: key :: blks -> let e = model_e (bytes_of_hex key) in show (List.map (fun b -> e (bytes_of_hex b)) blks)
       | "blockni" :: key :: blks -> let e = aesni_e (bytes_of_hex key) in show (List.map (fun b -> e (bytes_of_hex b)) blks)
       | "spec" :: ("block" | "blockni") :: key :: blks -> let e = spec_e (bytes_of_hex key) in show (List.map (fun b -> e (bytes_of_hex b)) blks)
